@@ -52,7 +52,7 @@ fn budget(prop: &str, tier: &str) -> (u32, u32, u64) {
         }
         "C08" => {
             if thorough {
-                (6000, 14, 14400)
+                (2400, 14, 14400)
             } else {
                 (3010, 14, 900)
             }
